@@ -55,6 +55,10 @@ CLAIMED = {
    text="RENUM as a transaction on the shared program store: a generated link-clean program (every referencing statement form incl. ON...GOSUB and, on unreachable lines, RUN n and LIST / DELETE in all range forms and bare; decoy numbers in PRINT, DATA, strings, remarks; non-ASCII text in front of references; line 0; lines up to 65529) is typed into the real runtime, a get_listing() snapshot is optionally held across, RENUM is typed in one of its eight argument forms with valid, overflowing, reordering, step-0 and out-of-range operands (also as a program statement, and on a program with a dangling reference). Verdict is the property's disjunction: (error reported and listing byte-identical) or (no error and listing equals the model renumbering of the generator's AST); on success the original program (fresh twin) and the renumbered one are run, entropy aligned, and transcripts and final variables must agree modulo the line map; a held snapshot must keep rendering the old text.",
    note="Trusted: the AST renderer and the 25-line model renumbering. A refused triple that the manual makes valid is counted, not reported (the property allows failing).",
    tech="deterministic simulation: seeded RENUM transactions with failing argument triples and live-snapshot fault, model renumbering + twin-runtime behavioural equivalence"),
+ "C19": dict(cat="exploration", ref="DESIGN.md section 5 C19",
+   text="Seeded sessions: a clean generated program is typed, optionally run to its end or to an injected Ctrl-C (leaving FOR/GOSUB frames, a CONT point and defined user functions), then damaged by typed edits (dangling reference in each of nine referencing forms, stray WHILE / WEND, token-level syntax damage, on new lines or in front of existing lines, with ASCII and multi-byte statements before the fault), then with tracing on one of 13 doors into the program is tried (RUN, RUN n, GOTO n, GOSUB n, ON..GOTO, ON..GOSUB, IF..THEN n, FOR..GOSUB..NEXT, CONT, RETURN, NEXT, a direct call of a user function, load-and-run from the SimDisk), optionally followed by CONT. Invariants: every diagnostic names a listed line and a character range inside its listed text, UNDEFINED LINE ranges spell exactly a missing number, WHILE/WEND ranges the keyword, LIST underlines exactly the reported ranges, every planted fault is reported; through the door no trace token, output, prompt or variable change; harmless direct statements still work.",
+   note="Trusted: the damage placement (faults only added, never by modifying existing statements, so the planted set is the expected set). An empty range at the end of a line counts as inside it. The value of a direct FN call is not judged here.",
+   tech="deterministic simulation: seeded edit/run/stop histories with injected interrupts, every door into a damaged program under seeded slice schedules, diagnostic-range invariants against the listing snapshot"),
 }
 
 NOT_APPLICABLE = {
